@@ -153,7 +153,7 @@ class Interp:
                 self.gadd(st, "freed_read", "%s" % (step,))
         # special: link fields of entries are modelled by the traversal model, not stored
         if v[0] == "struct" and v[1] == self.r.entry and step in self.r.links and step not in v[2]:
-            res = self._read_link(st, oid, v, step)
+            res = self._read_link(st, oid, v, step, done)
             if rest:
                 return self._nav(st, None, res, rest, done + (step,))
             return res
@@ -288,6 +288,7 @@ class Interp:
                     # a store through a handle to an entry that may already have been removed from / moved out of its table
                     self.gadd(st, "stale_write", "%s.%s" % (oid[0], path[-1]))
         if path and path[-1] in r.links and oid[0] != "L":
+            self.clear_link_memos(st)
             par = self.load(st, oid, path[:-1]) if len(path) > 1 else st.store.get(oid)
             if par is not None and par[0] == "struct" and par[1] == r.entry:
                 self.on_link_store(st, oid, path, val)
@@ -389,8 +390,36 @@ class Interp:
     def eptr(self, raw):
         return mkstruct(self.r.eptr, {self.r.EPTR_RAW: raw})
 
-    def _read_link(self, st, oid, ent, field):
-        """value of a link field (an EntryPtr) under the traversal model"""
+    def _read_link(self, st, oid, ent, field, done=()):
+        """value of a link field (an EntryPtr) under the traversal model.  Reading the same link of the same object again, with no
+        link store to heap memory in between, yields the same handle: the cursor object is remembered in the object (ghost
+        `#lm:<field>`, dropped by every heap link store) so that what a comparison learns about the first read (a match guard
+        `p if p == seal` reads through a reference, the arm then reads the place again) holds for the second."""
+        memo = ent[2].get("#lm:" + field)
+        cv0 = st.store.get(memo) if memo is not None else None
+        val = self._read_link0(st, oid, ent, field)
+        raw = val[2].get(self.r.EPTR_RAW) if (val[0] == "struct" and val[1] == self.r.eptr) else None
+        if raw is None or raw[0] != "ptr" or raw[2] != ():
+            return val
+        cnew = st.store.get(raw[1])
+        if cnew is None or cnew[0] != "cursor":
+            return val
+        if cv0 is not None and cv0[0] == "cursor" and all(cv0[1].get(k_) == cnew[1].get(k_) for k_ in ("R", "Rn", "dir", "seal", "tid", "first")):
+            del st.store[raw[1]]
+            return self.eptr(("ptr", memo, ()))
+        if done == () and st.store.get(oid) is ent:
+            f2 = dict(ent[2])
+            f2["#lm:" + field] = raw[1]
+            st.store[oid] = ("struct", ent[1], f2)
+        return val
+
+    def clear_link_memos(self, st):
+        for o_, v_ in list(st.store.items()):
+            if isinstance(v_, tuple) and v_ and v_[0] == "struct" and isinstance(v_[2], dict) and o_[0] != "L" \
+                    and any(isinstance(k_, str) and k_.startswith("#lm:") for k_ in v_[2]):
+                st.store[o_] = ("struct", v_[1], {k_: x_ for (k_, x_) in v_[2].items() if not (isinstance(k_, str) and k_.startswith("#lm:"))})
+
+    def _read_link0(self, st, oid, ent, field):
         r = self.r
         seal_of = ent[2].get("#seal_of")
         if seal_of is not None:
@@ -1443,7 +1472,7 @@ class Joiner:
             for k, vy in y[2].items():
                 if k == "#req":
                     continue
-                if k in ("#tid", "#seal_of", "#removed_from"):
+                if k in ("#tid", "#seal_of", "#removed_from") or (isinstance(k, str) and k.startswith("#lm:")):
                     if vy is not None and x[2].get(k) != vy:
                         return False
                     continue
@@ -1696,7 +1725,7 @@ class Joiner:
                             st_y = isinstance(ty_, tuple) and ty_ and ty_[0] in ("stale", "freed")
                             fr_ = (isinstance(tx, tuple) and tx and tx[0] == "freed") or (isinstance(ty_, tuple) and ty_ and ty_[0] == "freed")
                             f[k] = (("freed" if fr_ else "stale"), base(tx)) if (st_x or st_y) and base(tx) == base(ty_) else None
-                    elif k == "#seal_of":
+                    elif k == "#seal_of" or (isinstance(k, str) and k.startswith("#lm:")):
                         f[k] = x[2][k] if x[2][k] == y[2][k] else None
                     else:
                         f[k] = self.jv(x[2][k], y[2][k], a, b)
